@@ -153,10 +153,25 @@ def _bases_attr(E, st, obj):
     return st.alloc(HList(('obj', 'Layer'), bases_arr(obj.z), nb(obj.z)))
 
 
+def _layer_of(E, st, name):
+    t = ('opt', ('obj', 'Str'))
+    f = z3.Function('layer_from_name', sort_of(t), Layer)
+    return VObj('Layer', f(to_z3(name, t)))
+
+
+def layer_from_name_rule(E, st, node, args, kws, k):
+    return k(st, _layer_of(E, st, args[0]))
+layer_from_name_rule.__name__ = 'layer_from_name(name): a pure function of the name; never returns object'
+
+
 def register(E):
     if ('layers',) in E.added_axioms:
         return
     E.added_axioms.add(('layers',))
+    lo = z3.Const('lo', sort_of(('opt', ('obj', 'Str'))))
+    E.axioms.append(z3.ForAll([lo], z3.Function('layer_from_name', lo.sort(), Layer)(lo) != OBJ))
+    E.global_rules['layer_from_name'] = layer_from_name_rule
+    E.specfuncs['layer_of'] = _layer_of
     E.axioms += layer_axioms()
     E.axioms.append(WF_CONST == wf_formula())
     prove_lemmas(E)
